@@ -26,16 +26,22 @@ theorem Here.legal_emit {w : World} {P0 : List Op} {s : St} (op : Op)
 
 /-! ### compute_theta -/
 
+/-- `ec_encode(fl, fh, ft)`: `ec_decode(ft)` returns a point of the interval and `ec_dec_update(fl, fh, ft)` continues in
+    lock-step (stated for variables, so that no instance has to unfold `ec_decode`) -/
+theorem Here.emit_encode {w : World} {P0 : List Op} {s : St} {d : Dec} (h : Here w P0 s d) (fl fh ft : Nat)
+    (hp : w.IsPrefix (P0 ++ (s.emit (.encode fl fh ft)).ops)) :
+    fl ≤ (RangeCoder.decode d ft).1 ∧ (RangeCoder.decode d ft).1 < fh ∧
+    Here w P0 (s.emit (.encode fl fh ft)) (decUpdate (RangeCoder.decode d ft).2 fl fh ft) := by
+  obtain ⟨h1, h2⟩ := h.emit (.encode fl fh ft) hp
+  exact ⟨h1.1, h1.2, h2⟩
+
 theorem thetaStep_step (w : World) (P0 : List Op) (qn : Nat) :
     StepV w P0 (fun e => Opus.CeltBandsEnc.thetaStep e qn) (fun d => Opus.CeltBands.thetaStep d qn) := by
   intro e d
   refine ⟨Ext0.step _ _, fun hs hp => ?_⟩
   simp only [Opus.CeltBandsEnc.thetaStep] at hp ⊢
-  obtain ⟨m, hn⟩ := hs.here.pop.emit _ hp
-  have m' : (if e.s.pop.1.toNat ≤ qn / 2 then 3 * e.s.pop.1.toNat else (e.s.pop.1.toNat - 1 - qn / 2) + (qn / 2 + 1) * 3) ≤
-      (RangeCoder.decode d.c (3 * (qn / 2 + 1) + qn / 2)).1 ∧
-      (RangeCoder.decode d.c (3 * (qn / 2 + 1) + qn / 2)).1 <
-      (if e.s.pop.1.toNat ≤ qn / 2 then 3 * (e.s.pop.1.toNat + 1) else (e.s.pop.1.toNat - qn / 2) + (qn / 2 + 1) * 3) := m
+  obtain ⟨m1, m2, hn⟩ := hs.here.pop.emit_encode _ _ _ hp
+  have m' := And.intro m1 m2
   generalize e.s.pop.1.toNat = x at *
   generalize hfs : (RangeCoder.decode d.c (3 * (qn / 2 + 1) + qn / 2)).1 = fs at m'
   have hx : (if fs < (qn / 2 + 1) * 3 then fs / 3 else qn / 2 + 1 + (fs - (qn / 2 + 1) * 3)) = x := by
@@ -52,23 +58,17 @@ theorem thetaTri_step (w : World) (P0 : List Op) (qn : Nat) (heven : qn % 2 = 0)
   intro e d
   refine ⟨Ext0.step _ _, fun hs hp => ?_⟩
   simp only [Opus.CeltBandsEnc.thetaTri] at hp ⊢
-  obtain ⟨m, hn⟩ := hs.here.pop.emit _ hp
+  obtain ⟨m1, m2, hn⟩ := hs.here.pop.emit_encode _ _ _ hp
+  have m := And.intro m1 m2
   have hleg := Here.legal_emit _ hp
   generalize e.s.pop.1.toNat = x at *
-  have efl : (if x ≤ qn / 2 then x * (x + 1) / 2 else (qn / 2 + 1) * (qn / 2 + 1) - (qn + 1 - x) * (qn + 2 - x) / 2) =
-      OpusProofs.Tri.encFl qn x := rfl
-  have efs : (if x ≤ qn / 2 then x + 1 else qn + 1 - x) = OpusProofs.Tri.encFs qn x := rfl
-  rw [efl, efs] at hp hn m hleg ⊢
-  have m' : OpusProofs.Tri.encFl qn x ≤ (RangeCoder.decode d.c ((qn / 2 + 1) * (qn / 2 + 1))).1 ∧
-      (RangeCoder.decode d.c ((qn / 2 + 1) * (qn / 2 + 1))).1 < OpusProofs.Tri.encFl qn x + OpusProofs.Tri.encFs qn x := m
   have hxq : x ≤ qn := by
     have := hleg.1
-    unfold OpusProofs.Tri.encFs at this
     by_cases hc : x ≤ qn / 2
     · omega
-    · rw [if_neg hc] at this; omega
-  generalize hfm : (RangeCoder.decode d.c ((qn / 2 + 1) * (qn / 2 + 1))).1 = fm at m'
-  obtain ⟨t1, t2, t3⟩ := OpusProofs.Tri.tri_inv qn x fm heven hxq m'.1 m'.2
+    · rw [if_neg hc, if_neg hc] at this; omega
+  generalize hfm : (RangeCoder.decode d.c ((qn / 2 + 1) * (qn / 2 + 1))).1 = fm at m
+  obtain ⟨t1, t2, t3⟩ := OpusProofs.Tri.tri_inv qn x fm heven hxq m.1 m.2
   have hdec : (Opus.CeltBands.thetaTri d qn).1 = OpusProofs.Tri.decIt qn fm ∧
       (Opus.CeltBands.thetaTri d qn).2.c = decUpdate (RangeCoder.decode d.c ((qn / 2 + 1) * (qn / 2 + 1))).2
         (OpusProofs.Tri.decFl qn fm) (OpusProofs.Tri.decFl qn fm + OpusProofs.Tri.decFs qn fm) ((qn / 2 + 1) * (qn / 2 + 1)) ∧
